@@ -173,7 +173,7 @@ def run_case(case):
     d[amb] = 0
     rel = float(d.max() / scale)
     resid["closed_form_rel"] = rel
-    if rel > 1e-10:
+    if not rel <= 1e-10:
         i = np.unravel_index(int(np.argmax(d)), d.shape)
         viol.append({"what": "differs_from_published_closed_form", "params": dict(zm=zm, z0=z0, ws=ws, ustar=ustar, L=L, sigma_v=sigma_v),
                      "res": res, "wd": wd, "cell": i, "got": float(ffm[i]), "expected": float(ref[i]), "rel": rel})
@@ -253,7 +253,7 @@ def run_case(case):
     _, _, fs = call(zm, z0, ws, ustar, L, sigma_v, sdom, res, (0.0, 0.0))
     e = float(np.abs(fs - fs[::-1, :]).max() / (fs.max() or 1.0))
     resid["symmetry_rel"] = e
-    if e > 1e-11:
+    if not e <= 1e-11:
         viol.append({"what": "not_symmetric_about_wind_axis", "rel": e})
 
     # ---------------------------------------------------------------- (e) rotating the wind rotates the footprint
@@ -264,7 +264,7 @@ def run_case(case):
         _, _, fq = call(zm, z0, ws, ustar, L, sigma_v, rdom, res, (0.0, 0.0), wd=(wd0 + 90 * q) % 360)
         e = float(np.abs(fq - np.rot90(f0, -q)).max() / (f0.max() or 1.0))
         resid["rot90_rel"] = max(resid["rot90_rel"], e)
-        if e > 1e-9:
+        if not e <= 1e-9:
             viol.append({"what": "rotation_by_90_does_not_rotate_footprint", "wd": wd0, "quarter_turns": q, "rel": e})
 
     # ---------------------------------------------------------------- (d) mass -> regularised incomplete gamma
